@@ -5,7 +5,9 @@
    re-keyed without a with_clones decision; ...), and a valid call answers Ok.
    Covered: add_child(data) and the four shortcuts, add_child(node), every remove, remove_children, clear, del,
    sort_children (flat and deep), set_data, rename, metadata edits, new tree, Tree.copy, Node.copy.
-   NOT covered (valid_op = false): move_to, add(tree), copy_to(add_self=False), the in-place filter, from_dict. *)
+   move_to has its own predicate and theorem ([valid_move], [move_progress]: it needs WFw, the node must be found again
+   after it was taken out).  NOT covered (valid_op = false): add(tree), copy_to(add_self=False), the in-place filter,
+   from_dict. *)
 From Coq Require Import List ZArith Bool Arith Lia Permutation.
 From NT Require Import Sx Rose ListFacts RoseFacts Surgery SurgeryFacts Machine WF MachineFacts PreserveSteps PreserveOps
   PreserveRelabel Effects SortFacts.
@@ -263,4 +265,60 @@ Proof.
     exists t, s, cur, tch, c. refine (conj eq_refl (conj Gn (conj Gp (conj A (conj Gc (conj Hc Ed)))))).
   - destruct (match norm_before b with NNode s0 => Nat.eqb s0 n | _ => false end); [discriminate|].
     destruct (move_in t n target (norm_before b)); discriminate.
+Qed.
+
+(* ---- move_to: progress ---- *)
+Lemma move_in_total t n target nb s tch : WF t -> get_node n (forest_of t) = Some s ->
+  children_of target (forest_of t) = Some tch -> is_desc_or_self n target (forest_of t) = false ->
+  exists t', move_in t n target nb = Some t'.
+Proof.
+  intros H Gn Gc Nd. unfold move_in. set (f := forest_of t) in *.
+  destruct (get_node_loc n f s Gn) as (q0 & i & l & E & N).
+  assert (D : detach n f = Some (s, upd_ch q0 (remove_nth i) f)) by (unfold detach; now rewrite E, N).
+  rewrite D. set (f1 := upd_ch q0 (remove_nth i) f) in *.
+  destruct (Nat.eqb target 0) eqn:T0; [unfold parent_path; rewrite T0; eexists; reflexivity|].
+  assert (In1 : In target (ids f1)).
+  { unfold children_of, parent_path in Gc. rewrite T0 in Gc. destruct (node_path target f) as [q|] eqn:Np; [|discriminate].
+    destruct (node_path_sound target f q Np) as (s2 & Na & Rs2). destruct (node_at_loc q f s2 0 Na) as (_ & _ & P2 & _).
+    assert (Inf : In target (ids f)) by (rewrite <- Rs2; unfold ids; now apply in_map).
+    destruct (remove_branch t n) as [t'|] eqn:Rb.
+    2:{ unfold remove_branch in Rb. fold f in Rb. rewrite D in Rb. destruct (unregister_all _ _ _); discriminate. }
+    destruct (WF_remove_branch t n t' H Rb) as (_ & s0 & P0 & R0 & Pm).
+    assert (Ft' : forest_of t' = f1).
+    { unfold remove_branch in Rb. fold f in Rb. rewrite D in Rb. destruct (unregister_all _ _ _). injection Rb as <-. reflexivity. }
+    rewrite Ft' in Pm. fold f in Pm, P0. destruct (get_node_spec n f s Gn) as (Ps & Rs).
+    assert (s0 = s) by (apply (node_unique f); auto; [apply H|congruence]). subst s0.
+    apply (Permutation_in _ Pm) in Inf. apply in_app_or in Inf. destruct Inf as [X|X]; [|exact X]. exfalso.
+    unfold is_desc_or_self in Nd. fold f in Nd. rewrite Gn in Nd.
+    assert (Y : existsb (Nat.eqb target) (ids_t s) = true) by (apply existsb_exists; exists target; split; [exact X|apply Nat.eqb_refl]).
+    congruence. }
+  destruct (node_path_complete target f1 In1) as (q & Hq). unfold parent_path. rewrite T0, Hq. eexists. reflexivity.
+Qed.
+
+(* move_to inside one plain tree: the node and the target exist, the target is not in the node's own branch, `before`
+   names a child of the target, and (unless the node already is a child of the target) no child of the target carries
+   the node's data_id *)
+Definition valid_move (w : world) (ti n target : nat) (b : before) : bool :=
+  match get_tree w ti with
+  | Some t =>
+      negb (typed t) &&
+      match get_node n (forest_of t), children_of target (forest_of t), parent_of n (forest_of t) with
+      | Some s, Some tch, Some cur =>
+          negb (is_desc_or_self n target (forest_of t)) && before_ok (norm_before b) tch &&
+          negb (negb (Nat.eqb cur target) && existsb (fun c => did_eqb (rdid c) (rdid s)) tch)
+      | _, _, _ => false
+      end
+  | None => false
+  end.
+
+Theorem move_progress w ti n target b : WFw w -> valid_move w ti n target b = true -> fst (op_move w ti n ti target b) = Ok [].
+Proof.
+  intros W. unfold valid_move, op_move. destruct (get_tree w ti) as [t|] eqn:Gt; [|discriminate]. intros H.
+  apply andb_true_iff in H. destruct H as [Ty H]. apply negb_true_iff in Ty. rewrite Ty, Nat.eqb_refl. cbn [negb].
+  destruct (get_node n (forest_of t)) as [s|] eqn:Gn; [|discriminate]. destruct (children_of target (forest_of t)) as [tch|] eqn:Gc; [|discriminate].
+  destruct (parent_of n (forest_of t)) as [cur|] eqn:Gp; [|discriminate].
+  apply andb_true_iff in H. destruct H as [H H3]. apply andb_true_iff in H. destruct H as [H1 H2].
+  apply negb_true_iff in H1, H3. rewrite H1, H2, H3. cbn [negb].
+  destruct (match norm_before b with NNode s0 => Nat.eqb s0 n | _ => false end); [reflexivity|].
+  destruct (move_in_total t n target (norm_before b) s tch (WFw_tree _ ti t W Gt) Gn Gc H1) as (t' & ->). reflexivity.
 Qed.
